@@ -49,6 +49,28 @@ var pureExternal = map[string]bool{
 	"time.Duration.Milliseconds": true,
 }
 
+// which argument positions an external function writes through (documented
+// contracts; default: every reference argument).
+var astExternalWriteArgs = map[string]map[int]bool{
+	"crypto/subtle.XORBytes":                           {0: true},
+	"crypto/cipher.Encrypt":                            {0: true},
+	"crypto/cipher.Decrypt":                            {0: true},
+	"crypto/cipher.Seal":                               {0: true},
+	"crypto/cipher.Open":                               {0: true},
+	"golang.org/x/crypto/salsa20.XORKeyStream":         {0: true},
+	"io.ReadFull":                                      {1: true},
+	"encoding/binary.PutUint16":                        {0: true},
+	"encoding/binary.PutUint32":                        {0: true},
+	"encoding/binary.PutUint64":                        {0: true},
+	"sort.Slice":                                       {0: true},
+	"github.com/klauspost/reedsolomon.Encode":          {0: true},
+	"github.com/klauspost/reedsolomon.ReconstructData": {0: true},
+	"github.com/klauspost/reedsolomon.New":             {},
+	"crypto/cipher.NonceSize":                          {},
+	"crypto/cipher.Overhead":                           {},
+	"crypto/cipher.BlockSize":                          {},
+}
+
 func extFuncKey(f *types.Func) string {
 	if f == nil || f.Pkg() == nil {
 		return ""
@@ -186,8 +208,18 @@ func (p *Prog) nodeEffects(root ast.Node, self ast.Node) *Effects {
 			ef.ParamEW[v] = pos
 		}
 	}
-	contentWrite := func(arg ast.Expr, pos token.Pos) {
+	var contentWrite func(arg ast.Expr, pos token.Pos)
+	aliasDepth := 0
+	contentWrite = func(arg ast.Expr, pos token.Pos) {
 		fld, v := p.rootOf(arg)
+		// a local slice/pointer variable may alias what it was assigned from
+		if fld == nil && v != nil && !p.isGlobal(v) && aliasDepth < 4 {
+			aliasDepth++
+			for _, rhs := range p.localAliasSources(v) {
+				contentWrite(rhs, pos)
+			}
+			aliasDepth--
+		}
 		switch {
 		case fld != nil:
 			if u, ok := ast.Unparen(arg).(*ast.UnaryExpr); ok && u.Op == token.AND {
@@ -357,6 +389,22 @@ func (p *Prog) nodeEffects(root ast.Node, self ast.Node) *Effects {
 			if _, seen := ef.Calls[f]; !seen {
 				ef.Calls[f] = x.Pos()
 			}
+			if f.Pkg() == p.Types {
+				// the callee writes through some of its reference parameters
+				if cf := p.FuncOf(f); cf != nil && cf.Decl != nil {
+					pw := p.paramWrites(cf)
+					if pw[-1] {
+						if sel, ok := ast.Unparen(x.Fun).(*ast.SelectorExpr); ok {
+							contentWrite(sel.X, x.Pos())
+						}
+					}
+					for ai, a := range x.Args {
+						if pw[ai] {
+							contentWrite(a, x.Pos())
+						}
+					}
+				}
+			}
 			if f.Pkg() != nil && f.Pkg().Path() == "container/heap" && len(x.Args) > 0 {
 				ef.HeapCalls = append(ef.HeapCalls, x)
 			}
@@ -365,7 +413,11 @@ func (p *Prog) nodeEffects(root ast.Node, self ast.Node) *Effects {
 				// is handled by the callee set of container/heap below; external callee: may write
 				// through reference arguments and through a pointer receiver.
 				if !pureExternal[extFuncKey(f)] {
-					for _, a := range x.Args {
+					wa, hasTable := astExternalWriteArgs[f.Pkg().Path()+"."+f.Name()]
+					for ai, a := range x.Args {
+						if hasTable && !wa[ai] {
+							continue
+						}
 						if refLike(p.Info.TypeOf(a)) {
 							contentWrite(a, x.Pos())
 						}
@@ -377,6 +429,9 @@ func (p *Prog) nodeEffects(root ast.Node, self ast.Node) *Effects {
 								if _, isPtr := sig.Recv().Type().(*types.Pointer); isPtr {
 									// x.f.M() with pointer receiver: x.f's contents may change
 									fld, v := p.rootOf(sel.X)
+									if hasTable && len(wa) == 0 {
+										fld, v = nil, nil // documented as a pure query
+									}
 									if fld != nil {
 										if _, isPtrField := fld.Type().Underlying().(*types.Pointer); isPtrField {
 											ef.ElemW[fld] = x.Pos()
@@ -759,4 +814,118 @@ func (p *Prog) FieldOwner(f *types.Var) string {
 		return f.Pkg().Name() + ".?." + f.Name()
 	}
 	return "?." + f.Name()
+}
+
+// paramWrites: indices of the reference parameters (receiver = -1) through
+// which the function may write (element stores, copy destination, or handing the
+// parameter on to a callee that does).
+func (p *Prog) paramWrites(fi *FuncInfo) map[int]bool {
+	m, ok := p.memo["paramwrites"].(map[*FuncInfo]map[int]bool)
+	if !ok {
+		m = map[*FuncInfo]map[int]bool{}
+		p.memo["paramwrites"] = m
+	}
+	if r, ok := m[fi]; ok {
+		return r
+	}
+	res := map[int]bool{}
+	m[fi] = res // recursion guard (cycles contribute nothing)
+	if fi.Decl == nil {
+		return res
+	}
+	idx := map[*types.Var]int{}
+	if rv := p.recvVar(fi); rv != nil {
+		// only slice/map-typed receivers (fecPacket); struct receivers are tracked by field
+		switch rv.Type().Underlying().(type) {
+		case *types.Slice, *types.Map:
+			idx[rv] = -1
+		}
+	}
+	i := 0
+	for _, fl := range fi.Decl.Type.Params.List {
+		if len(fl.Names) == 0 {
+			i++
+			continue
+		}
+		for _, nm := range fl.Names {
+			if v, ok := p.Info.Defs[nm].(*types.Var); ok && refLike(v.Type()) {
+				idx[v] = i
+			}
+			i++
+		}
+	}
+	ef := p.Effects(fi)
+	for v := range ef.ParamEW {
+		if k, ok := idx[v]; ok {
+			res[k] = true
+		}
+	}
+	// literals defined inside (e.g. range-over-func bodies) count too
+	for l := range ef.Lits {
+		for v := range p.Effects(l).ParamEW {
+			if k, ok := idx[v]; ok {
+				res[k] = true
+			}
+		}
+	}
+	return res
+}
+
+// localAliasSources: right-hand sides assigned to the local reference variable v
+// that are themselves references into something else (x[a:b], x, &x.f, x.f).
+func (p *Prog) localAliasSources(v *types.Var) []ast.Expr {
+	m, ok := p.memo["aliassrc"].(map[*types.Var][]ast.Expr)
+	if !ok {
+		m = map[*types.Var][]ast.Expr{}
+		p.memo["aliassrc"] = m
+		for _, f := range p.Files {
+			ast.Inspect(f, func(n ast.Node) bool {
+				switch x := n.(type) {
+				case *ast.AssignStmt:
+					if len(x.Lhs) != len(x.Rhs) {
+						return true
+					}
+					for i, l := range x.Lhs {
+						id, ok := ast.Unparen(l).(*ast.Ident)
+						if !ok {
+							continue
+						}
+						o := p.Info.Defs[id]
+						if o == nil {
+							o = p.Info.Uses[id]
+						}
+						lv, ok := o.(*types.Var)
+						if !ok || lv.IsField() || !refLike(lv.Type()) {
+							continue
+						}
+						switch r := ast.Unparen(x.Rhs[i]).(type) {
+						case *ast.SliceExpr, *ast.Ident, *ast.SelectorExpr, *ast.IndexExpr:
+							m[lv] = append(m[lv], x.Rhs[i])
+						case *ast.UnaryExpr:
+							if r.Op == token.AND {
+								m[lv] = append(m[lv], x.Rhs[i])
+							}
+						}
+					}
+				case *ast.RangeStmt:
+					// for _, r := range X : r aliases elements of X when they are references
+					if id, ok := x.Value.(*ast.Ident); ok {
+						if lv, ok := p.Info.Defs[id].(*types.Var); ok && refLike(lv.Type()) {
+							m[lv] = append(m[lv], x.X)
+						}
+					}
+				}
+				return true
+			})
+		}
+	}
+	var out []ast.Expr
+	for _, e := range m[v] {
+		// skip self references (v = v[a:])
+		if _, rv := p.rootOf(e); rv == v {
+			continue
+		}
+		out = append(out, e)
+	}
+	return out
 }
